@@ -484,7 +484,7 @@ impl RobotBody {
         if check_tool {
             if let Some(tool) = &self.tool {
                 for (env_idx, env_obj) in self.collision_environment.iter().enumerate() {
-                    if self.check_required(J_TOOL, (ENV_START_IDX + env_idx) as usize, &skip) {
+                    if self.check_required(J_TOOL, (ENV_START_IDX + env_idx) as usize, &skip, safety_distances) {
                         tasks.push(CollisionTask {
                             i: J_TOOL as u16,
                             j: (ENV_START_IDX + env_idx) as u16,
@@ -501,7 +501,7 @@ impl RobotBody {
         for i in 0..6 {
             for j in ((i + 1)..6).rev() {
                 // If both joints did not move, we do not need to check
-                if j - i > 1 && self.check_required(i, j, &skip) {
+                if j - i > 1 && self.check_required(i, j, &skip, safety_distances) {
                     tasks.push(CollisionTask {
                         i: i as u16,
                         j: j as u16,
@@ -517,7 +517,7 @@ impl RobotBody {
             for (env_idx, env_obj) in self.collision_environment.iter().enumerate() {
                 // Joints we do not move we do not need to check for collision against objects
                 // that also not move.
-                if self.check_required(i, ENV_START_IDX + env_idx, &skip) {
+                if self.check_required(i, ENV_START_IDX + env_idx, &skip, safety_distances) {
                     tasks.push(CollisionTask {
                         i: i as u16,
                         j: (ENV_START_IDX + env_idx) as u16,
@@ -530,7 +530,7 @@ impl RobotBody {
             }
 
             // Check if there is no collision between joint and tool
-            if check_tool && i != J6 && i != J5 && self.check_required(i, J_TOOL, &skip) {
+            if check_tool && i != J6 && i != J5 && self.check_required(i, J_TOOL, &skip, safety_distances) {
                 if let Some(tool) = &self.tool {
                     let accessory_pose = &joint_poses[J6];
                     tasks.push(CollisionTask {
@@ -546,7 +546,7 @@ impl RobotBody {
 
             // Base does not move, we do not need to check for collision against the joint
             // that also did not.
-            if i != J1 && !skip.contains(&i) && self.check_required(i, J1, &skip) {
+            if i != J1 && self.check_required(i, J_BASE, &skip, safety_distances) {
                 if let Some(base) = &self.base {
                     let accessory = &base.mesh;
                     let accessory_pose = &base.base_pose;
@@ -563,7 +563,7 @@ impl RobotBody {
         }
 
         // Check tool-base collision if necessary
-        if check_tool || self.check_required(J_TOOL, J_BASE, &skip) {
+        if check_tool || self.check_required(J_TOOL, J_BASE, &skip, safety_distances) {
             if let (Some(tool), Some(base)) = (&self.tool, &self.base) {
                 tasks.push(CollisionTask {
                     i: J_TOOL as u16,
@@ -578,9 +578,14 @@ impl RobotBody {
         Self::process_collision_tasks(tasks, safety_distances, override_mode)
     }
 
-    fn check_required(&self, i: usize, j: usize, skip: &HashSet<usize>) -> bool {
-        !skip.contains(&i) && !skip.contains(&j) &&
-            self.safety.min_distance(i as u16, j as u16) > &NEVER_COLLIDES
+    fn check_required(&self, i: usize, j: usize, skip: &HashSet<usize>,
+                      safety: &SafetyDistances) -> bool {
+        // A pair can only be skipped if neither body moved: joints in `skip` did not move,
+        // the environment and the base never move. The distances are the ones in force for
+        // this call.
+        let unmoved = |k: usize| skip.contains(&k) || k >= ENV_START_IDX || k == J_BASE;
+        !(unmoved(i) && unmoved(j)) &&
+            safety.min_distance(i as u16, j as u16) > &NEVER_COLLIDES
     }    
 }
 
